@@ -51,11 +51,26 @@ Oracle (from the property statement):
                 the way the original is changed still behaves like it
                 (driver 3, `functor...` ids).
 
+  direct leaves a non-symbolic leaf is copied (deep) / shared (shallow) by the
+                clone path of the node that holds it, and every class family
+                has a path of its own (Dict, List, Object and what rides on it
+                -- DNASpec nodes, symbolized classes, Diff, contextual objects,
+                compounds --, the overrides of Functor, HyperPrimitive, DNA):
+                the `leaves/direct/` subjects put a mutable leaf into every
+                kind of slot such a value has for user data (`hints` of every
+                hyper primitive and DNASpec node, functor arguments, Any /
+                Object / Tuple / Union typed fields, cloneable DNA metadata).
+                A tuple may be rebuilt by a shallow clone (typed fields
+                re-apply their spec) as long as it holds the very objects.
+
 case_id: `clone/<check>/<node type>` for fidelity (clone depth in the key),
 `<depth>/<sharing check>/<type>`, `alias:<alias>/<check>/<type>` for a check
 that fails for an alias but holds for the clone of the same depth,
 `interference/<depth>/<type of mutated node>.<mutation family>/<what changed
-on the other side>`,
+on the other side>`; for a leaf, <type> says where it is held:
+`leaf-in-<type of the node holding it>`, or `leaf-below-<type>` of the nearest
+Object-family value when plain Dict / List nodes lie between (hyper candidates,
+DNA metadata), see _leaf_place,
 `flagflip:<flag>(<new value>)@<root|inner-as-parent|inner-differs-from-parent>/
 <check>/<type>` for a check that fails only after a flag of a node was flipped
 after construction (position of the flipped node / relation of its new flag to
@@ -123,6 +138,17 @@ FRAGMENTS = [
     ('NH(', "class NH(pg.hyper.OneOf): allow_symbolic_mutation = False\n"),
     ('ND(', "class ND(pg.DNA): allow_symbolic_mutation = False\n"),
     ('MyRef(', "class MyRef(pg.Ref): pass\n"),
+    # Classes that hold a non-symbolic leaf directly (round 4): a user-defined
+    # hyper primitive, a contextual object, an object whose typed fields accept
+    # a plain Python object (Any / Object / Tuple / Union / nested Dict specs),
+    # a compound, the node transform of an evolvable.
+    ('CH(', "class CH(pg.hyper.CustomHyper):\n  def custom_decode(self, dna): return dna.value\n"),
+    ('CO(', "class CO(pg.ContextualObject):\n  x: T.Any() = None\n  y: T.Any() = None\n"),
+    ('TL(', "@pg.members([('a', T.Any()), ('b', T.Object(Leaf)), ('c', T.Tuple([T.Object(Leaf), T.Int()])),\n"
+            "             ('u', T.Union([T.Int(), T.Object(Leaf)])), ('d', T.Dict([('k', T.Object(Leaf))]))])\n"
+            "class TL(pg.Object): pass\n"),
+    ('CP(', "@pg.compound(A)\ndef CP(p, q=None): return A(x=p, y=[q])\n"),
+    ('_tf', "def _tf(k, v, p): return v\n"),
     ('W(', "class _P:\n"
            "  def __init__(self, u, v=None): self.u = u; self.v = v\n"
            "W = pg.symbolize(_P)\n"),
@@ -296,6 +322,38 @@ def subjects(tier):
   add('list/typed-empty+flags', "o = pg.List([], value_spec=LS, sealed=True, accessor_writable=False)")
   # Symbolic nodes held inside non-symbolic leaves.
   add('leaves/symbolic-node-inside-leaf', "o = pg.Dict(a=Leaf(pg.Dict(c=[1])), t=(pg.Dict(d=1), {'k': pg.List([2])}))")
+  # A mutable non-symbolic leaf held *directly* by a value of every class
+  # family that copies its fields itself (Object._sym_clone and the overrides
+  # of Functor, HyperPrimitive, DNA; the generic path taken by DNASpec nodes,
+  # symbolized classes, Diff, contextual objects, compounds), in every kind of
+  # slot such a value has for arbitrary user data (an Any-typed field such as
+  # `hints`, a functor argument, typed Object / Tuple / Union fields, cloneable
+  # DNA metadata), stand-alone, below containers, sealed and picked out of a tree.
+  add('leaves/direct/functor-argument', "o = fn(a=Leaf([1]), b=(Leaf([2]),))")
+  add('leaves/direct/functor-argument-in-containers', "o = pg.Dict(f=[fn(a=Leaf([1]))], g=nf(a=Leaf([2])))")
+  add('leaves/direct/hyper-oneof-hints', "o = pg.oneof([1, Leaf([3])], hints=Leaf([1]))")
+  add('leaves/direct/hyper-floatv-hints', "o = pg.floatv(0.0, 1.0, hints=({'k': [1]},))")
+  add('leaves/direct/hyper-hints-nested-choices-in-dict',
+      "o = pg.Dict(s=pg.oneof([pg.permutate([1, 2], hints=Leaf([1])), pg.floatv(0., 1., hints=bytearray(b'x'))], hints={1, 2}))")
+  add('leaves/direct/hyper-hints-every-primitive-in-object-and-list',
+      "o = A(x=pg.manyof(2, [1, 2, 3], hints=Leaf([1])), y=[pg.floatv(0., 1., hints=Leaf([2])), CH(hints=[Leaf([3])]), "
+      "pg.evolve(pg.Dict(x=1), _tf, hints=Leaf([4]))])")
+  add('leaves/direct/hyper-hints-sealed',
+      "o = pg.List([NH(candidates=[1, 2], hints=Leaf([1])), pg.oneof([1, 2], hints=Leaf([2])).seal()])")
+  add('leaves/direct/hyper-hints-picked-from-tree',
+      "root = pg.Dict(x=pg.oneof([1, 2], hints=Leaf([1])), j=1)\no = root.sym_getattr('x')")
+  add('leaves/direct/geno-spec-hints',
+      "o = pg.geno.space([pg.geno.floatv(0., 1., hints=Leaf([2])), "
+      "pg.geno.oneof([pg.geno.constant(), pg.geno.constant()], hints=(Leaf([1]),))], hints=Leaf([4]))")
+  add('leaves/direct/dna-metadata',
+      "o = pg.DNA([0, 1])\no.set_metadata('m', Leaf([1]), cloneable=True)\n"
+      "o.set_metadata('n', pg.Dict(u=Leaf([2]), l=[(Leaf([3]),)]), cloneable=True)\n"
+      "o.children[0].set_metadata('m', Leaf([4]), cloneable=True)")
+  add('leaves/direct/wrapper-diff-compound',
+      "o = pg.List([W(u=Leaf([1]), v=(Leaf([2]),)), pg.Diff(left=Leaf([3]), right=Leaf([4])), CP(p=Leaf([5]), q=pg.Dict(k=Leaf([6])))])")
+  add('leaves/direct/contextual-object', "o = CO(x=Leaf([1]), y=pg.Dict(k=CO(x=(Leaf([2]),))))")
+  add('leaves/direct/typed-object-fields',
+      "o = TL(a=Leaf([1]), b=Leaf([2]), c=(Leaf([3]), 1), u=Leaf([4]), d={'k': Leaf([5])})")
   # Leaves Python refuses to deep-copy (see `refusal` in the module docstring).
   add('leaves/uncopyable/lock', "o = pg.Dict(a=pg.Dict(b=1), l=threading.Lock())")
   add('leaves/uncopyable/generator', "o = pg.List([pg.Dict(k=1), (i for i in range(3))])")
@@ -392,6 +450,45 @@ def _tname(n):
   if isinstance(n, Symbolic):
     return 'object'
   return 'leaf'
+
+
+def _leaf_place(root, keys):
+  """Where a non-symbolic leaf is held, for case ids.
+
+  `leaf-in-<type>`: held directly by a node of that type; `leaf-below-<type>`:
+  held by plain Dict / List nodes below an Object-family value of that type
+  (hyper candidates, DNA metadata, ...).  The clone paths that copy leaves
+  (Dict / List / Object / Functor / hyper primitive / DNA each have their own)
+  get different ids this way.
+  """
+  chain = [root]
+  try:
+    for k in keys[:-1]:
+      chain.append(chain[-1].sym_getattr(k))
+  except Exception:  # pylint: disable=broad-except
+    return 'leaf'
+  holder = _tname(chain[-1])
+  if holder in ('dict', 'list'):
+    for a in reversed(chain[:-1]):
+      if _tname(a) not in ('dict', 'list'):
+        return f'leaf-below-{_tname(a)}'
+  return f'leaf-in-{holder}'
+
+
+def _shallow_same(a, b):
+  """Does a shallow clone hold `b` where the original holds `a` as it must?
+
+  The very object; a tuple may be built anew (a typed field re-applies its
+  spec) as long as it holds the very objects -- a tuple itself cannot be
+  mutated, so only what it holds can carry a mutation across.
+  """
+  if a is b:
+    return True
+  if isinstance(a, tuple) and isinstance(b, tuple) and type(a) is type(b) and len(a) == len(b):
+    return all(_shallow_same(x, y) for x, y in zip(a, b))
+  # Immutable leaves (numbers, strings, the MISSING_VALUE sentinels...) cannot
+  # tell sharing from copying (their value is compared by pg.eq).
+  return not _has_mutable(a)
 
 
 def _nav(name, keys):
@@ -537,17 +634,16 @@ def fidelity(o, c, depth, flags=True):
                     f'assert type({nb}) is type({na})'))
         continue
       if depth == 'shallow':
-        # Immutable leaves (numbers, strings, the MISSING_VALUE sentinels...)
-        # cannot tell sharing from copying; only mutable ones are compared.
-        if a is not b and _has_mutable(a):
-          out.append(('shallow.leaf-copied', 'leaf', keys,
+        if not _shallow_same(a, b):
+          out.append(('shallow.leaf-copied', _leaf_place(o, keys), keys,
                       f'non-symbolic leaf {nb} ({type(b).__name__}) is not the object held by the original',
-                      f'assert {nb} is {na}'))
+                      'S = lambda a, b: a is b or (isinstance(a, tuple) and isinstance(b, tuple) and len(a) == len(b) '
+                      f'and all(map(S, a, b)))\nassert S({nb}, {na})'))
       else:
         mine = {id(x): e for x, e in _mutable_parts(a, na)}
         for x, e in _mutable_parts(b, nb):
           if id(x) in mine:
-            out.append(('deep.shared-mutable-leaf', 'leaf', keys,
+            out.append(('deep.shared-mutable-leaf', _leaf_place(o, keys), keys,
                         f'mutable {type(x).__name__} object {e} is shared with the original ({mine[id(x)]})',
                         f'assert {e} is not {mine[id(x)]}'))
             break
@@ -632,14 +728,17 @@ def drv_clone_fidelity(tier, seed):
             'nested nodes, Functor, DNA, hyper values, stand-alone / nested / subclassed Ref, Ref '
             'targets also held in leaves, classes sealed by default (Object, Functor, hyper, DNA) '
             'as built and unsealed afterwards, symbolized classes, DNASpec, DNAGenerator, Diff, '
-            'symbolic nodes inside leaves, leaves Python cannot deep-copy: lock, generator, object '
+            'symbolic nodes inside leaves, mutable leaves held directly by a functor (argument), every '
+            'hyper primitive and DNASpec node (hints), DNA (cloneable metadata), symbolized class, Diff, '
+            'compound, contextual object, Any/Object/Tuple/Union-typed fields, '
+            'leaves Python cannot deep-copy: lock, generator, object '
             'owning a lock, __deepcopy__ raising 6 exception classes) x clone(deep=False/True) and '
             f'{len(ALIASES)} aliases (+ .copy()) incl. deep copies through a memo that already holds '
             f'copies of the Ref targets; clones made inside {len(SCOPES)} scoped overrides '
             '(as_sealed, allow_writable_accessors, notify_on_change, track_origin; quick: one of '
             '4 clone expressions per subject/scope); every node x {seal, accessor-writable} flipped '
             'after construction then cloned (quick: 10 nodes nearest the root, one of 4 clone '
-            'expressions per flip); every node pair compared')
+            'expressions per flip; not for the `leaves/direct/` subjects); every node pair compared')
   for subject_index, (label, src) in enumerate(subs):
     base_fail = {}
     base_raised = set()
@@ -733,7 +832,9 @@ def drv_clone_fidelity(tier, seed):
                  _wit(src, [stmt, a]))
       if not fails and before == after:
         rec.case(f'alias:{alias}', (label, depth), True)
-    _flip_cases(rec, label, src, base_fail, base_raised, tier)
+    if not (tier == 'quick' and label.startswith('leaves/direct/')):
+      # (quick: the flags of these classes are flipped in the subjects above)
+      _flip_cases(rec, label, src, base_fail, base_raised, tier)
   _override_cases(rec)
   return rec.result()
 
@@ -869,25 +970,26 @@ def mutations(root, name, depth):
     if kind == 'leaf':
       if depth != 'deep':
         continue
+      lt = _leaf_place(root, keys)
       for x, ex in _mutable_parts(a, e):
         if isinstance(x, pg.List):
-          yield 'leaf', 'leaf-write', 'symbolic-list-inside-leaf.append', f'{_CTX} {ex}.append(9)'
+          yield lt, 'leaf-write', 'symbolic-list-inside-leaf.append', f'{_CTX} {ex}.append(9)'
         elif isinstance(x, pg.Dict):
-          yield 'leaf', 'leaf-write', 'symbolic-dict-inside-leaf.setitem', f"{_CTX} {ex}['zz'] = 9"
+          yield lt, 'leaf-write', 'symbolic-dict-inside-leaf.setitem', f"{_CTX} {ex}['zz'] = 9"
         elif isinstance(x, Symbolic):
-          yield 'leaf', 'leaf-write', 'symbolic-node-inside-leaf.seal', f'{ex}.seal({not x.is_sealed})'
+          yield lt, 'leaf-write', 'symbolic-node-inside-leaf.seal', f'{ex}.seal({not x.is_sealed})'
         elif isinstance(x, list):
-          yield 'leaf', 'leaf-write', 'list.append', f'{ex}.append(9)'
+          yield lt, 'leaf-write', 'list.append', f'{ex}.append(9)'
         elif isinstance(x, dict):
-          yield 'leaf', 'leaf-write', 'dict.setitem', f"{ex}['zz'] = 9"
+          yield lt, 'leaf-write', 'dict.setitem', f"{ex}['zz'] = 9"
         elif isinstance(x, set):
-          yield 'leaf', 'leaf-write', 'set.add', f'{ex}.add(9)'
+          yield lt, 'leaf-write', 'set.add', f'{ex}.add(9)'
         elif isinstance(x, bytearray):
-          yield 'leaf', 'leaf-write', 'bytearray.append', f'{ex}.append(9)'
+          yield lt, 'leaf-write', 'bytearray.append', f'{ex}.append(9)'
         elif isinstance(x, Leaf):
-          yield 'leaf', 'leaf-write', 'attr', f'{ex}.v = 9'
+          yield lt, 'leaf-write', 'attr', f'{ex}.v = 9'
         elif isinstance(getattr(x, '__dict__', None), dict):
-          yield 'leaf', 'leaf-write', 'new-attr', f'{ex}.zz = 9'
+          yield lt, 'leaf-write', 'new-attr', f'{ex}.zz = 9'
       continue
     if not keys and a.sym_parent is None:
       # Using a value: putting it into a container of its own.
@@ -953,7 +1055,8 @@ def drv_clone_independence(tier, seed):
             'of Ref nodes, attaching a parentless value to a new Dict / List, writes inside mutable '
             'leaves -- plain containers, object attributes, symbolic nodes held by a leaf -- for '
             'deep clones)'
-            + ('; quick: every 2nd mutation (offset = seed)' if quick else '')
+            + ('; quick: every write inside a leaf, every 2nd other mutation (offset = seed; every 4th for the '
+               '`leaves/direct/` subjects)' if quick else '')
             + f'; plus {nrand} seeded histories of 2..5 mutations alternating sides per subject/method')
   r = rng(seed, 'c07-indep')
   for label, src in subs:
@@ -965,7 +1068,11 @@ def drv_clone_independence(tier, seed):
       for side, other in (('o', 'c'), ('c', 'o')):
         muts = list(mutations(env0[side], side, depth))
         if quick:
-          muts = muts[seed % 2::2]
+          # Every write inside a leaf; of the rest every 2nd (every 4th for the
+          # subjects that are there for the leaves they hold directly).
+          step = 4 if label.startswith('leaves/direct/') else 2
+          lw = [x for x in muts if x[1] == 'leaf-write']
+          muts = lw + [x for x in muts if x[1] != 'leaf-write'][seed % step::step]
         for t, fam, mlabel, stmt in muts:
           env = build(src, expr)
           oroot = _root_of(env) if other == 'o' else env['c']
